@@ -61,8 +61,8 @@ MUTANTS += [
     dict(prop="C02", name="float-negative-exponent", file=SO,
          old="    return decimal_numbers*10.**powers", new="    return decimal_numbers*10.**np.abs(powers)"),
     dict(prop="C02", name="str-to-int-plus-sign", file=SO,
-         old='    number_text[is_positive, 0] = "0"\n    number_text = as_encoded_array(number_text, DigitEncoding)',
-         new='    number_text[is_positive, 0] = "1"\n    number_text = as_encoded_array(number_text, DigitEncoding)'),
+         old='    number_text[is_positive & has_digits, 0] = "0"\n    number_text = as_encoded_array(number_text, DigitEncoding)',
+         new='    number_text[is_positive & has_digits, 0] = "1"\n    number_text = as_encoded_array(number_text, DigitEncoding)'),
     dict(prop="C02", name="comment-lines-offset", file=DLB,
          old="        comment_mask = np.flatnonzero(comment_mask)\n", new="        comment_mask = np.flatnonzero(comment_mask)[:2]\n"),
 ]
